@@ -231,7 +231,7 @@ class YncaCommandHandler(socketserver.StreamRequestHandler):
 
         # SYS:INPNAME returns all inputnames
         if subunit == "SYS" and function == "INPNAME":
-            sys_values = self.store._store["SYS"]
+            sys_values = self.store._store.get("SYS", {})
             for key in sys_values.keys():
                 if key.startswith("INPNAME") and key != "INPNAME":
                     self._send_stored_value_no_error(subunit, key)
@@ -240,7 +240,7 @@ class YncaCommandHandler(socketserver.StreamRequestHandler):
         # SCENENAME returns all scenenames
         elif function == "SCENENAME":
             response_sent = False
-            subunit_values = self.store._store[subunit]
+            subunit_values = self.store._store.get(subunit, {})
             for key in subunit_values.keys():
                 if (
                     key.startswith("SCENE")
